@@ -1,8 +1,9 @@
-import Librfn.Gen.Rand
+import Librfn.Ref.Rand
 /-!
 # C17 — `rand31_r` is exactly the Park–Miller minimal standard generator
 
-`Librfn.Gen.Rand.rand31_r` is regenerated from `/repo/librfn/rand.c` on every run (tie T): a
+`Librfn.Ref.Rand.rand31_r` is the reference step (the frozen translation of the pinned `rand.c`); `Props/C17Tie.lean` proves on
+every run that the code regenerated from `/repo/librfn/rand.c` equals it on every valid seed (tie T): a
 function from the old `*seedp` to `(return value, new *seedp)` over `BitVec 32` with C's 32-bit
 wrap-around arithmetic.  Kernel-only proofs (no `bv_decide`).
 
@@ -10,7 +11,7 @@ The "full period 2^31-2" clause is the classical fact that 16807 is a primitive 
 prime 2^31-1; it is proved separately (Mathlib) in `LibrfnMath/Period.lean`, on top of `iterate_spec`.
 -/
 namespace Librfn.C17
-open Librfn.Gen.Rand
+open Librfn.Ref.Rand
 
 def P : Nat := 2147483647   -- 2^31 - 1
 
